@@ -57,6 +57,7 @@ pub fn parse_integer(
 fn parse_integer_with_error(signed: bool, input: TokenStream) -> Result<(Sign, UBig), ParseError> {
     let mut val: Option<_> = None;
     let mut neg = false;
+    let mut sign_seen = false;
     let mut base_marked = false;
     let mut base: Option<_> = None;
 
@@ -75,23 +76,25 @@ fn parse_integer_with_error(signed: bool, input: TokenStream) -> Result<(Sign, U
             TokenTree::Ident(ident) => {
                 if val.is_none() {
                     val = Some(ident.to_string()) // this accepts numbers starting with non-base 10 digits
-                } else if base.is_none() && ident == "base" {
+                } else if base.is_none() && !base_marked && ident == "base" {
                     base_marked = true
                 } else {
                     return Err(ParseError::InvalidDigit);
                 }
             }
             TokenTree::Punct(punct) => {
-                if val.is_none() && punct.as_char() == '-' {
+                if val.is_none() && !sign_seen && punct.as_char() == '-' {
                     if signed {
                         neg = true;
+                        sign_seen = true;
                     } else {
                         return Err(ParseError::InvalidDigit);
                     }
-                } else if val.is_none() && punct.as_char() == '+' {
+                } else if val.is_none() && !sign_seen && punct.as_char() == '+' {
                     if !signed {
                         return Err(ParseError::InvalidDigit);
                     }
+                    sign_seen = true;
                 } else {
                     return Err(ParseError::InvalidDigit);
                 }
